@@ -22,7 +22,7 @@ CHECKS = {
     "C03": dict(
         category="model_checking", design_ref="5 C03",
         technique="TLA+ spec checked by TLC; trace validation of rsim executions (conformance + monitor); attack replay",
-        text="ElectionSafety, LeaderCompleteness, OneVotePerTerm (across restarts, from durable votes), ElectionQuorum (from delivered vote responses) checked by TLC on the model and on observed states of the real code, with and without PreVote/CheckQuorum, sizes 1..5, witnesses/non-voting members, membership changes, transfers, crash/restart.",
+        text="ElectionSafety, LeaderCompleteness, OneVotePerTerm (across restarts, from durable votes), ElectionQuorum (from delivered vote responses) checked by TLC on the model and on observed states of the real code, with and without PreVote/CheckQuorum, sizes 1..5, witnesses/non-voting members, membership changes, transfers, crash/restart. Second engine (nhsim pipe scenarios, real NodeHosts incl. node.replayLog, engine, Pebble / Tan, power loss at seeded file-system operations, flapping hosts): TLC (NodeSafetyTrace) reads the votes off the messages that reach the transport and the leaders off the RaftEventListener and requires one vote per replica and term across restarts and one leader per term.",
         note=RAFT_NOTE),
     "C06": dict(
         category="model_checking", design_ref="5 C06",
@@ -32,7 +32,7 @@ CHECKS = {
     "C07": dict(
         category="model_checking", design_ref="5 C07",
         technique="TLA+ spec checked by TLC; trace validation of rsim executions; model replay of Membership.tla state graph on the real rsm membership object",
-        text="One config change at a time, membership agreement at equal applied index, removed-never-readmitted, kind only by promotion, plus C02/C03 predicates across membership changes, on the model and on observed executions; the accept/reject rule table is replayed transition by transition on the real membership code.",
+        text="One config change at a time, membership agreement at equal applied index, removed-never-readmitted, kind only by promotion, plus C02/C03 predicates across membership changes, on the model and on observed executions; the accept/reject rule table is replayed transition by transition on the real membership code. Third engine (nhsim member scenarios on real NodeHosts): seeded sequences of AddReplica / AddNonVoting / promotion / DeleteReplica and of requests that must be refused (re-admitting a removed replica, demoting a voter, address in use, stale ConfigChangeIndex under OrderedConfigChange, promotion with another address) through the public API while clients write; TLC (MemberTrace over RSM.tla CCAccept / CCDo) judges every outcome and requires every membership reported by any running host to be the rule table's.",
         note=RAFT_NOTE),
     "C18": dict(
         category="model_checking", design_ref="5 C18",
@@ -56,9 +56,9 @@ CHECKS["C05"] = dict(
     note=RSM_NOTE)
 CHECKS["C08"] = dict(
     category="model_checking", design_ref="5 C08", engine="tlc+smsim",
-    technique="TLA+ spec (RSM.tla) + TLC trace validation: state recovered from a snapshot = state saved, then same suffix applied next to the uninterrupted instance",
-    text="At random cuts of seeded entry streams a snapshot is saved by a real rsm.StateMachine (regular and concurrent, with and without compression) and recovered into a fresh or a lagging instance, which then applies the rest of the stream next to the uninterrupted instance; TLC requires the recovered projected state (user data, sessions incl. LRU order, membership, index, term) to equal the saved one and every later state/result of the twin to equal the specification's fold of the log.",
-    note=RSM_NOTE + " Compaction-covered-by-snapshot and snapshot catch-up of lagging followers are checked at protocol level by the rsim traces of C02 (CanCompact / InstallSnapshot conformance); on-disk state machines are not driven yet.")
+    technique="TLA+ spec (RSM.tla) + TLC trace validation: state recovered from a snapshot = state saved, then same suffix applied next to the uninterrupted instance; compaction part: TLC evaluation (CompactionTrace) of restart observations of real NodeHosts",
+    text="At random cuts of seeded entry streams a snapshot is saved by a real rsm.StateMachine (regular and concurrent, with and without compression) and recovered into a fresh or a lagging instance, which then applies the rest of the stream next to the uninterrupted instance; TLC requires the recovered projected state (user data, sessions incl. LRU order, membership, index, term) to equal the saved one and every later state/result of the twin to equal the specification's fold of the log. Compaction part (second engine, nhsim snap scenarios on real NodeHosts: slow concurrent snapshot saves under continuous writes with compaction overhead 0-2, regular / concurrent / on-disk state machines, power loss at seeded file-system operations, restart): TLC (CompactionTrace over Pipeline.tla LogContinuesSnapshot) requires that what the log store returns at every restart continues the recorded snapshot without a gap, and that the restart does not panic.",
+    note=RSM_NOTE + " Snapshot catch-up of lagging followers is also exercised at protocol level by the rsim traces of C02 (CanCompact / InstallSnapshot conformance) and end to end by the nhsim scenarios of C16.")
 
 LS_NOTE = ("Trusted: TLC; the lssim driver (harness/logdb/lssim_test.go) and the lni/vfs strict in-memory file system "
            "(crash = unsynced data dropped at a chosen FS operation; no torn single write); Pebble's and Tan's internals are exercised, not modelled.")
@@ -93,9 +93,9 @@ CHECKS["C14"] = dict(
 
 CHECKS["C17"] = dict(
     category="model_checking", design_ref="5 C17",
-    technique="TLA+ bounded-progress predicate (RaftSys.tla ProgressPred) evaluated by TLC on real executions: seeded fault prefix + scripted attack prefixes, then a fair fault-free period on the real raft code",
-    text="After a seeded fault prefix (loss, duplication, partitions incl. single cut links, crashes, restarts, membership changes, transfers, snapshots/compaction) every started replica runs, no message is lost, replicas get pairwise distinct election timeouts and a fair scheduler runs 2x40 (thorough 2x60) rounds with a probe proposal and a probe linearizable read at every replica; TLC then requires: a leader exists, every running member is in its term and caught up to its commit index (by log or snapshot), every probe completed. All PreVote/CheckQuorum settings; every step is also checked against Raft.tla.",
-    note=RAFT_NOTE + " Progress within the stated bound, not unbounded liveness; quiesce and the rate limiter are outside rsim; replicas whose removal was applied are stopped before the fair period (a removed replica that keeps running disrupts elections without PreVote/CheckQuorum: known Raft behaviour).")
+    technique="TLA+ bounded-progress predicate (RaftSys.tla ProgressPred) evaluated by TLC on real executions: seeded fault prefix + scripted attack prefixes, then a fair fault-free period on the real raft code; quiesce and the rate limiter: TLA+ specifications (Quiesce.tla, RateLimit.tla) model-checked (resume / release lemmas) and bound to the real objects by trace evaluation",
+    text="After a seeded fault prefix (loss, duplication, partitions incl. single cut links, crashes, restarts, membership changes, transfers, snapshots/compaction) every started replica runs, no message is lost, replicas get pairwise distinct election timeouts and a fair scheduler runs 2x40 (thorough 2x60) rounds with a probe proposal and a probe linearizable read at every replica; TLC then requires: a leader exists, every running member is in its term and caught up to its commit index (by log or snapshot), every probe completed. All PreVote/CheckQuorum settings; every step is also checked against Raft.tla. Supporting mechanisms as sequential objects: the real quiesceState (quiesce.go) and the real InMemRateLimiter (internal/server/rate.go) are driven by seeded sequences (ticks, recorded messages, Quiesce messages; sizes around the 70% / 100% thresholds, follower reports, resets); TLC recomputes every step with Quiesce.tla / RateLimit.tla and evaluates the lemmas that MCQuiesce / MCRateLimit establish exhaustively: activity always ends quiesce, a heartbeat wakes a shard that has been quiescent for an election time-out, an idle shard goes quiescent and announces it; rate limiting starts only with cause and is released once sizes are below 70% and the hysteresis window has passed.",
+    note=RAFT_NOTE + " Progress within the stated bound, not unbounded liveness; quiesce and the rate limiter are decided as sequential objects, not inside rsim; replicas whose removal was applied are stopped before the fair period (a removed replica that keeps running disrupts elections without PreVote/CheckQuorum: known Raft behaviour).")
 
 NH_NOTE = ("Trusted: TLC, the Go toolchain, the nhsim harness (in-process NodeHosts over lni/vfs strict MemFS, a recording ITransport and "
            "ILogDB wrapper, instrumented state machines; /verif/harness/root/nhsim_*_test.go). Real goroutine schedules and wall-clock "
@@ -183,8 +183,10 @@ def main():
             {"name": "tlc+rsim", "path": "/verif/lib/raftfamily.py",
              "serves_properties": ["C02", "C03", "C06", "C07", "C17", "C18"],
              "kind_free_text": "TLC exhaustive model checking of MCRaft + TLC trace validation (RaftTrace) of executions of the real internal/raft recorded by the rsim harness"},
-            {"name": "tlc+nhsim", "path": "/verif/lib/nhfamily.py", "serves_properties": ["C01", "C04", "C11", "C16", "C20"],
+            {"name": "tlc+nhsim", "path": "/verif/lib/nhfamily.py", "serves_properties": ["C01", "C03", "C04", "C07", "C08", "C11", "C16", "C20"],
              "kind_free_text": "TLC model checking (MCPipeline, MCClientHistory) + TLC evaluation (ClientHistoryTrace, PipelineTrace, SMContractTrace) of event streams recorded from in-process clusters of real NodeHosts (harness/root/nhsim_*_test.go)"},
+            {"name": "tlc+qssim/rlsim", "path": "/verif/lib/c17b.py", "serves_properties": ["C17"],
+             "kind_free_text": "TLC model checking of MCQuiesce / MCRateLimit + TLC trace evaluation of the real quiesceState and InMemRateLimiter"},
             {"name": "tlc+smsim", "path": "/verif/lib/rsmchecks.py", "serves_properties": ["C05", "C08", "C07"],
              "kind_free_text": "TLC model checking of MCRSM + TLC trace validation (RSMTrace) of real rsm.StateMachine instances driven by harness/rsm/smsim_test.go"},
             {"name": "tlc+lssim", "path": "/verif/lib/logstore.py", "serves_properties": ["C09", "C10"],
